@@ -30,10 +30,49 @@ Proof. vm_compute. reflexivity. Qed.
 
 (* ---- the tie to the code: src/polyseed.c as TRANSLATED on this run (Gen/CApi.v) ---- *)
 From Coq Require Import String.
-From PS Require Import Base GFDefs PackDefs StoreDefs MiscDefs StrDefs LangDefs ApiDefs SpecDefs SpecApi GFProofs PackProofs StoreProofs RefineProofs RoundTrip CTieBase CTieLang CTiePhrase CTiePhraseEv CTieSplit CTieApi CTieDecode CTieEncode CTieLocals CTieInject CTieCmp CTieSearch CTieClosed CodeTheorems.
+From PS Require Import Base GFDefs PackDefs StoreDefs MiscDefs StrDefs LangDefs ApiDefs SpecDefs SpecApi GFProofs PackProofs StoreProofs RefineProofs RoundTrip CTieBase CTieLang CTiePhrase CTiePhraseEv CTieSplit CTieApi CTieDecode CTieEncode CTieLocals CTieInject CTieCmp CTieSearch CTieClosed CodeTheorems CodeMachine.
 From PS.Gen Require Import Consts PrivConsts Langs.
 From PS.Gen Require CFuns.
 From PS.Gen Require CApi.
+
+(* THE TRANSLATED CODE AS A MACHINE: one call of the Gallina generated from the current polyseed.c (every public function except polyseed_inject, which is tied separately) on a state - table, mask, heap of blocks, allocator counter - gives the same next state, output and events as the mirror step, for every well-formed call *)
+Theorem C13_code_tie_machine :
+  forall (sgn : bool) (fuel : nat) (ext : Z -> list Z -> Z) (OKW : bytes -> Prop),
+         (forall (li : nat) (L : lang) (w : bytes),
+          OKW w -> nth_error langs li = Some L -> ext (Z.of_nat li) (zs w) = enc (lang_search sgn L w)) ->
+         (forall t : bytes, no_nul t -> (Datatypes.length t + 2 <= fuel)%nat -> OKW t) ->
+         (18 <= fuel)%nat ->
+         forall (st : state) (o : op), op_ready sgn fuel st o -> cstep sgn fuel ext st o = step sgn langs st o.
+Proof. exact @cstep_ok. Qed.
+Print Assumptions C13_code_tie_machine.
+
+(* ... and so does every history of calls *)
+Theorem C13_code_tie_machine_run :
+  forall (sgn : bool) (fuel : nat) (ext : Z -> list Z -> Z) (OKW : bytes -> Prop),
+         (forall (li : nat) (L : lang) (w : bytes),
+          OKW w -> nth_error langs li = Some L -> ext (Z.of_nat li) (zs w) = enc (lang_search sgn L w)) ->
+         (forall t : bytes, no_nul t -> (Datatypes.length t + 2 <= fuel)%nat -> OKW t) ->
+         (18 <= fuel)%nat ->
+         forall (st : state) (ops : list op),
+         Ready sgn fuel st ops -> crun sgn fuel ext st ops = run sgn langs st ops.
+Proof. exact @crun_run. Qed.
+Print Assumptions C13_code_tie_machine_run.
+
+(* composed with C13_refinement: any history of calls of the translated code gives, call by call, the outputs of the abstract seed machine and ends in a related state *)
+Theorem C13_code_tie_code_refinement :
+  forall (sgn : bool) (fuel : nat) (ext : Z -> list Z -> Z) (OKW : bytes -> Prop),
+         (forall (li : nat) (L : lang) (w : bytes),
+          OKW w -> nth_error langs li = Some L -> ext (Z.of_nat li) (zs w) = enc (lang_search sgn L w)) ->
+         (forall t : bytes, no_nul t -> (Datatypes.length t + 2 <= fuel)%nat -> OKW t) ->
+         (18 <= fuel)%nat ->
+         forall (ops : list op) (cs : state) (a : astate),
+         R cs a ->
+         Forall op_ok ops ->
+         Ready sgn fuel cs ops ->
+         map fst (snd (crun sgn fuel ext cs ops)) = snd (arun langs a ops) /\
+         R (fst (crun sgn fuel ext cs ops)) (fst (arun langs a ops)).
+Proof. exact @code_refinement. Qed.
+Print Assumptions C13_code_tie_code_refinement.
 
 (* polyseed_create as translated = the mirror step the refinement is about *)
 Theorem C13_code_tie_api_create :
